@@ -58,7 +58,7 @@ type scenario struct {
 	Leftover    int      `json:"leftover,omitempty"`  // the source has the referrers API AND bare sha256-<digest> tags (indexes of the referrers) left over
 	Wipe        string   `json:"wipe,omitempty"`      // prior "recopy": what vanished from the target afterwards, behind the client's back: all | blobs (blobs and tags)
 	Mirror      string   `json:"mirror,omitempty"`    // client host config names an (empty) mirror for: tgt | src | both
-	Prior       string   `json:"prior,omitempty"`     // what the same client did before the observed copy: "copy" = copied the image to another repository of the target registry, "get" = fetched every manifest of the source by digest, "recopy" = made the same copy before (then Wipe happened)
+	Prior       string   `json:"prior,omitempty"`     // what the same client did before the observed copy: "copy" = copied the image to another repository of the target registry, "get" = fetched every manifest of the source by digest, "recopy" = made the same copy before (then Wipe happened; Wipe "" = nothing vanished: the observed copy is a repeat onto an identical target), "recopy-other" = ANOTHER client made the same copy before, "reflist" = listed the referrers of every source manifest (filter PriorArg), "taglist" = listed the source tags, "head" = ManifestHead of every source manifest by digest
 	ListOrder   string   `json:"listorder,omitempty"` // order in which registries list tags / referrers: "" sorted | rev | ins (named tags first, digest tags after) | rand (seeded)
 	Callback    int      `json:"callback,omitempty"`  // ImageWithCallback installed (always for layout targets: observation points)
 	Cache       int      `json:"cache,omitempty"`     // reg.WithCache: manifest / referrer cache of the reg scheme on
@@ -77,8 +77,17 @@ type scenario struct {
 	Cancel      *pos     `json:"cancel,omitempty"`
 	Death       *pos     `json:"death,omitempty"`
 	CancelCB    *pos     `json:"cancel_cb,omitempty"` // cancel when the progress callback reports "blob N started" the Occ-th time
-	Seed        int64    `json:"seed,omitempty"`
-	Origin      string   `json:"origin,omitempty"` // free text: which generator made it
+	// a second user of the same RegClient while the copy runs (round 5): at the request position Closer (before that
+	// request is served) or when the progress callback reports "blob N finished" the Occ-th time (CloserCB), another
+	// goroutine does CloserOp on the target: "close" = rc.Close(target) (what regctl does after every copy),
+	// "copyclose" = copies another small image from a layout into the same target under another tag, then rc.Close
+	Closer   *pos   `json:"closer,omitempty"`
+	CloserCB *pos   `json:"closer_cb,omitempty"`
+	CloserOp string `json:"closer_op,omitempty"`
+	// argument of Prior "reflist": the artifact type filter of the earlier listing ("" = unfiltered)
+	PriorArg string `json:"prior_arg,omitempty"`
+	Seed     int64  `json:"seed,omitempty"`
+	Origin   string `json:"origin,omitempty"` // free text: which generator made it
 }
 
 const (
@@ -401,6 +410,9 @@ func seed(h *simreg.Host, repo string, n *node) {
 // wipe removes content from the target the way someone else would (registry GC, repository deleted and
 // recreated, files removed): "all" = everything, "blobs" = the blobs and the tags (manifests stay).
 func (w *world) wipe(what string) {
+	if what == "" {
+		return
+	}
 	if w.tgtIsDir {
 		if what == "all" {
 			_ = os.RemoveAll(w.tgtDir)
